@@ -5,6 +5,7 @@ package main
 import (
 	"fmt"
 	"reflect"
+	"runtime"
 	"strings"
 	"unicode/utf16"
 
@@ -75,8 +76,8 @@ var cheapSha2 = []int{1000, 1001, 1003}
 var schemes = []*schemeOps{
 	{name: "md5", tag: 1, check: md5.Check, coqName: "md5",
 		newHash: func(pw string, c int) (string, error) { return md5.NewHash(pw), nil },
-		params: func(h string) (hparams, error) { s, err := md5.Salt(h); return hparams{salt: s}, err },
-		key:    func(pw string, p hparams) ([]byte, error) { return md5.Key([]byte(pw), p.salt) },
+		params:  func(h string) (hparams, error) { s, err := md5.Salt(h); return hparams{salt: s}, err },
+		key:     func(pw string, p hparams) ([]byte, error) { return md5.Key([]byte(pw), p.salt) },
 		kdfArgs: func(pw string, p hparams) ([][]byte, []int64) { return [][]byte{[]byte(pw), p.salt}, nil },
 	},
 	{name: "sha256", tag: 5, check: sha256.Check, coqName: "sha256",
@@ -188,9 +189,93 @@ var schemes = []*schemeOps{
 	},
 }
 
+// panicErr: an exported function of the library panicked; the wrappers below turn that into an error value and
+// record the call, and main appends every recorded panic to the report as a failure with the call as its input
+// (every property presupposes that the call returns).
+type panicErr struct {
+	op, args string
+	v        interface{}
+}
+
+func (p *panicErr) Error() string { return fmt.Sprintf("panic in %s: %v", p.op, p.v) }
+
+var panicsSeen []*panicErr
+
+func notePanic(op, args string, v interface{}) *panicErr {
+	pe := &panicErr{op, args, v}
+	panicsSeen = append(panicsSeen, pe)
+	return pe
+}
+
+// firstLibFrame: the innermost frames of the current (panicking) stack that lie in the library
+func firstLibFrame() string {
+	pcs := make([]uintptr, 40)
+	n := runtime.Callers(3, pcs)
+	fr := runtime.CallersFrames(pcs[:n])
+	var out []string
+	for {
+		f, more := fr.Next()
+		if strings.Contains(f.Function, "sergeymakinen/go-crypt") {
+			out = append(out, fmt.Sprintf("%s (%s:%d)", f.Function, f.File, f.Line))
+		}
+		if !more || len(out) >= 3 {
+			break
+		}
+	}
+	return "in " + strings.Join(out, " <- ")
+}
+
+func quoteShort(s string) string {
+	if len(s) > 300 {
+		return fmt.Sprintf("%q...(%d bytes)", s[:300], len(s))
+	}
+	return fmt.Sprintf("%q", s)
+}
+
 func init() {
 	for _, s := range schemes {
 		s.pkgPath = "github.com/sergeymakinen/go-crypt/" + s.name
+		name := s.name
+		if f := s.check; f != nil {
+			s.check = func(h, pw string) (err error) {
+				defer func() {
+					if r := recover(); r != nil {
+						err = notePanic(name+".Check", "hash="+quoteShort(h)+" password="+quoteShort(pw), r)
+					}
+				}()
+				return f(h, pw)
+			}
+		}
+		if f := s.newHash; f != nil {
+			s.newHash = func(pw string, c int) (h string, err error) {
+				defer func() {
+					if r := recover(); r != nil {
+						h, err = "", notePanic(name+".NewHash", fmt.Sprintf("password=%s cost_index=%d", quoteShort(pw), c), r)
+					}
+				}()
+				return f(pw, c)
+			}
+		}
+		if f := s.newHashRaw; f != nil {
+			s.newHashRaw = func(pw string, c uint32) (h string, err error) {
+				defer func() {
+					if r := recover(); r != nil {
+						h, err = "", notePanic(name+".NewHash", fmt.Sprintf("password=%s cost=%d", quoteShort(pw), c), r)
+					}
+				}()
+				return f(pw, c)
+			}
+		}
+		if f := s.params; f != nil {
+			s.params = func(h string) (p hparams, err error) {
+				defer func() {
+					if r := recover(); r != nil {
+						err = notePanic(name+".Params/Salt", "hash="+quoteShort(h), r)
+					}
+				}()
+				return f(h)
+			}
+		}
 	}
 }
 
